@@ -281,6 +281,20 @@ def run(ctx):
             cases.append(('dom', t, g.gen_dom(rng, g.TYPE_TO_KIND[kind_t], force)))
     for v in g.TS_BOUNDARIES:
         cases.append(('ts', {'prim': 'timestamp'}, ('ts', v)))
+    # contents whose Micheline / Python form is "empty" (an empty sequence, zero, "", False) under every wrapper: `Some {}` is not `None`,
+    # `Left {}` / `Pair {} {}` keep their empty components
+    N, S_ = {'prim': 'nat'}, {'prim': 'string'}
+    for inner, ev in [({'prim': 'list', 'args': [N]}, ('list', [])), ({'prim': 'set', 'args': [S_]}, ('set', [])),
+                      ({'prim': 'map', 'args': [N, S_]}, ('map', [])), ({'prim': 'lambda', 'args': [N, N]}, ('lambda', g.LAMBDA_POOL[0])),
+                      (N, ('int', 0)), (S_, ('str', '')), ({'prim': 'bytes'}, ('bytes', b'')), ({'prim': 'bool'}, ('bool', False)),
+                      ({'prim': 'unit'}, ('unit',)), ({'prim': 'option', 'args': [N]}, ('none',))]:
+        cases.append(('empty-some', {'prim': 'option', 'args': [inner]}, ('some', ev)))
+        cases.append(('empty-left', {'prim': 'or', 'args': [inner, N]}, ('left', ev)))
+        cases.append(('empty-right', {'prim': 'or', 'args': [N, inner]}, ('right', ev)))
+        cases.append(('empty-pair', {'prim': 'pair', 'args': [inner, inner]}, ('pair', ev, ev)))
+        cases.append(('empty-elem', {'prim': 'list', 'args': [inner]}, ('list', [ev, ev])))
+        cases.append(('empty-mapval', {'prim': 'map', 'args': [N, inner]}, ('map', [(('int', 0), ev)])))
+        cases.append(('empty-some-some', {'prim': 'option', 'args': [{'prim': 'option', 'args': [inner]}]}, ('some', ('some', ev))))
     for i in range(n_rand):
         t = g.gen_type(rng, rng.choice([1, 2, 2, 3, 3, 4]), packable=True, pairs_ok=pairs_ok)
         cases.append(('random', t, g.gen_value(rng, t, pairs_ok)))
